@@ -538,7 +538,7 @@ func famTyped(dir string, seed int64, tier string) {
 		}
 	}
 	typedKeyOrder(repM, wM, r)
-	typedRegisteredMarshaler(repU)
+	typedRegisteredMarshaler(repM, repU)
 	typedMore(dir, seed, tier, repU, wU)
 	typedTargeted(repU, wU, r)
 	typedEvolution(dir, seed, tier, repM, repU, wM, wU)
